@@ -15,6 +15,7 @@ import (
 	"fmt"
 	"go/ast"
 	"go/token"
+	"hash/fnv"
 	"sort"
 	"strings"
 
@@ -37,6 +38,7 @@ type site struct {
 	doW, unW []write
 	doC, unC []string
 	caps     [][2]string
+	sig      uint64 // FNV-1a of the printed source of both closures (a fingerprint, not a judgement)
 }
 
 func isHistoryAppend(f *ex.File, c *ast.CallExpr) (string, bool) {
@@ -218,6 +220,9 @@ func main() {
 					if ok2 {
 						s.unW, s.unC = closure(f, un)
 					}
+					hs := fnv.New64a()
+					hs.Write([]byte(f.Src(c.Args[1]) + "\x00" + f.Src(c.Args[2])))
+					s.sig = hs.Sum64() % 1000000007
 					all := captures(f, fd.Body, c.Pos())
 					// keep only captures a rollback closure mentions
 					if ok2 {
@@ -262,7 +267,7 @@ func main() {
 		for _, c := range s.caps {
 			caps = append(caps, codes(c[0]))
 		}
-		fmt.Printf("def n%d : NSite := ⟨%d, %v, %s, %s, %s, %s, [%s]⟩\n", i, i, s.lit, nw(s.doW), nw(s.unW), ncs(s.doC), ncs(s.unC), strings.Join(caps, ", "))
+		fmt.Printf("def n%d : NSite := ⟨%d, %d, %v, %s, %s, %s, %s, [%s]⟩\n", i, i, s.sig, s.lit, nw(s.doW), nw(s.unW), ncs(s.doC), ncs(s.unC), strings.Join(caps, ", "))
 		nn = append(nn, fmt.Sprintf("n%d", i))
 	}
 	fmt.Printf("\ndef nsites : List NSite := [%s]\n", strings.Join(nn, ", "))
